@@ -168,8 +168,11 @@ func c10OpenThenGone(modes []c04Mode) func(x *X) {
 	return func(x *X) {
 		mode := modes[x.Choose(len(modes))]
 		script := x.Choose(4)
-		enc := wireEncoder("")
-		w, srv, cl, net := rawServer(mode.sys, mode.so)
+		encName := []string{"", "yield-pb"}[x.Choose(2)] // a header codec with scheduling points inside the decode
+		enc := wireEncoder(encName)
+		so := mode.so
+		so.enc = encName
+		w, srv, cl, net := rawServer(mode.sys, so)
 		switch script {
 		case 0:
 			cl.WriteMessage(mkReq(enc, 7, upOpen, "StreamSvc.Push", nil))
